@@ -325,6 +325,14 @@ Definition cw_cert_ok {V} (veqb : V -> V -> bool) (A : cw_automaton V) (pvs : li
   is_standard (cw_kind A)
   && cwc_cert_ok V veqb sget oget tget pvs (length (mp_table (cw_mapper A))) (length (cw_states A)) (length (cw_outputs A)).
 
+Definition cw_lm_cert_ok {V} (veqb : V -> V -> bool) (A : cw_automaton V) (pvs : list (list N * V)) : bool :=
+  let sget := cw_sget V A in
+  let oget := cw_oget V A in
+  let tget := cw_tget V A in
+  is_leftmost (cw_kind A)
+  && lm_cert_ok V veqb (cwc_child sget tget) (cwc_failof sget) (cwc_outposof sget) (cwc_outat V oget)
+                (cwc_labels tget (length (mp_table (cw_mapper A)))) cwc_plen pvs (length (cw_states A)).
+
 (* ---- C07, character-wise: the range check ---------------------------------------------------- *)
 Definition cw_slot_ok (len nout : N) (s : cstate) : bool :=
   ((c_base s =? 0) || (c_base s <? len)) && (c_fail s <? len) && (c_outpos s <=? nout).
